@@ -45,8 +45,9 @@ def check(ctx):
     expect_fn(ctx, "C16.2", "substitutes/insert_if_not_exists", "TypeSubstitutes::insert_if_not_exists",
               "{Entry::or_insert(HashMap::entry(P0.substitutes,%s.0),%s.1);Ok(())}" % (PARSE, PARSE), "insert-if-absent: entry(key).or_insert(rule) never replaces", S)
     PE = "TypeSubstitutes::parse_path_substitution(elem(P1).0,elem(P1).1.0)?"
-    expect_fn(ctx, "C16.2", "substitutes/extend", "TypeSubstitutes::extend", "{for(P1){HashMap::insert(P0.substitutes,%s.0,%s.1)};Ok(())}" % (PE, PE),
-              "extend: per element in order, parse then insert (a failing element stops before its own insertion)", S)
+    DELEGATING = ["Iterator::try_for_each(P1,|1|{TypeSubstitutes::insert(P0,C1_0.0,C1_0.1)})", "{for(P1){TypeSubstitutes::insert(P0,elem(P1).0,elem(P1).1)?};Ok(())}"]
+    expect_fn(ctx, "C16.2", "substitutes/extend", "TypeSubstitutes::extend", ["{for(P1){HashMap::insert(P0.substitutes,%s.0,%s.1)};Ok(())}" % (PE, PE)] + DELEGATING,
+              "extend: per element in order, parse then insert (a failing element stops before its own insertion) - written out or by calling insert per element", S)
     for suf in ("TypeSubstitutes::insert", "TypeSubstitutes::insert_if_not_exists", "TypeSubstitutes::extend"):
         fn = q.fn1(P, suf, S)
         if fn is None:
@@ -60,6 +61,8 @@ def check(ctx):
                 order.append(("mutate", n["sp"]))
         kinds = [k for k, _ in order]
         ok = "try" in kinds and "mutate" in kinds and kinds.index("try") < kinds.index("mutate")
+        if not ok and suf.endswith("::extend") and show(Norm(fn).term(fn["body"])) in DELEGATING:
+            ok = True           # each element goes through `insert`, whose own order is checked above
         ctx.expect(ok, "C16.3", "parse-before-mutate/" + cshort(fn["path"]), fn["sp"], "the fallible parse precedes the map mutation in evaluation order", "order of effects: %s" % kinds)
     with ctx.only(lambda k: k.startswith("key/") or k.startswith("mapping/")):
         # incl. the mapping function as a whole: a rule is accepted (and the map modified) only after BOTH generic lists were validated
